@@ -60,6 +60,13 @@ theorem shape_by_name {dims : List ν} (hnd : dims.Nodup) (s : List Nat) (hl : s
   have hk : k < dims.length := by simpa using h2
   simp [hnd.idxOf_getElem k hk, List.getD, h1]
 
+theorem list_by_name {γ : Type} {dims : List ν} (hnd : dims.Nodup) (s : List γ) (dflt : γ)
+    (hl : s.length = dims.length) : s = dims.map (fun nm => s.getD (dims.idxOf nm) dflt) := by
+  apply List.ext_getElem (by simp [hl])
+  intro k h1 h2
+  have hk : k < dims.length := by simpa using h2
+  simp [hnd.idxOf_getElem k hk, List.getD, h1]
+
 /-- transposing by the permutation induced by a list of names is invisible to by-name lookups -/
 theorem transpose_named {α : Type} [Inhabited α] {dims ds' : List ν} (hnd : dims.Nodup)
     (hperm : ds'.Perm dims) (a : Arr α) (e ℓ : ν → Nat) (hs : a.shape = dims.map e)
